@@ -652,15 +652,28 @@ class AtLeast(puan.Proposition):
             
             # If both compounds and atomics are less
             # than full len of propositions, then this
-            # is a mixed of both
+            # is a mixed of both. Only the atoms' sum S clamped to
+            # [lower, min(upper, value)] matters, where lower is the
+            # smallest sum that, together with all compounds, could
+            # still reach value. The clamped sum is replaced by the
+            # threshold propositions S >= t for t = lower+1..min(upper, value),
+            # since clamp(S) - lower = sum_t [S >= t], and each is
+            # negated like the compounds.
+            offset = 0
             if len(compounds) < len(self.propositions):
-                compounds.append(
-                    AtLeast(
-                        value=self.value,
-                        propositions=atoms,
-                        sign=self.sign,
+                lower = max(sum(map(lambda x: x.bounds.lower, atoms)), self.value - len(compounds) - 1)
+                upper = sum(map(lambda x: x.bounds.upper, atoms))
+                compounds.extend(
+                    map(
+                        lambda t: AtLeast(
+                            value=t,
+                            propositions=atoms,
+                            sign=self.sign,
+                        ),
+                        range(lower+1, max(lower+1, min(upper, self.value))+1)
                     )
                 )
+                offset = lower
 
             negated.propositions = list(
                 map(
@@ -669,7 +682,7 @@ class AtLeast(puan.Proposition):
                 ),
             )
             negated.sign = 1
-            negated.value += len(compounds)
+            negated.value += len(compounds) + offset
 
         return negated
 
